@@ -593,6 +593,67 @@ func groupsCase(w *gal.Writer, gs []passwd.GroupEntry, class string) {
 		stripOk(galGroups(gs, nil)), gal.Str(text), galGroups(rb.Entries, rerr), rw)
 	w.Add(gal.Case{Term: term, Class: "group/" + class, Desc: desc{"group", "", gs}})
 }
+// file level: the accounts files are REWRITTEN in place (ReadOrCreate..., change the entries, WriteFile); what the file holds
+// after the second WriteFile must be what Write produces for the second entry list, on both writable filesystems
+func pwFileCase(w *gal.Writer, kind, backend string, us1, us2 []passwd.UserEntry, gs1, gs2 []passwd.GroupEntry, class string) {
+	var fsys apkfs.FullFS
+	var tmp string
+	if backend == "dirfs" {
+		var err error
+		if tmp, err = os.MkdirTemp("", "c16pw"); err != nil {
+			panic(err)
+		}
+		defer os.RemoveAll(tmp)
+		fsys = apkfs.DirFS(tmp)
+	} else {
+		fsys = apkfs.NewMemFS()
+	}
+	if err := fsys.MkdirAll("etc", 0o755); err != nil {
+		panic(err)
+	}
+	var want bytes.Buffer
+	var path string
+	var werr error
+	if kind == "passwd" {
+		path = "etc/passwd"
+		uf, err := passwd.ReadOrCreateUserFile(fsys, path)
+		if err != nil {
+			panic(err)
+		}
+		uf.Entries = us1
+		if err := uf.WriteFile(path); err != nil {
+			panic(err)
+		}
+		uf.Entries = us2
+		werr = uf.WriteFile(path)
+		_ = (&passwd.UserFile{Entries: us2}).Write(&want)
+	} else {
+		path = "etc/group"
+		gf, err := passwd.ReadOrCreateGroupFile(fsys, path)
+		if err != nil {
+			panic(err)
+		}
+		gf.Entries = gs1
+		if err := gf.WriteFile(fsys, path); err != nil {
+			panic(err)
+		}
+		gf.Entries = gs2
+		werr = gf.WriteFile(fsys, path)
+		_ = (&passwd.GroupFile{Entries: gs2}).Write(&want)
+	}
+	got, rerr := fsys.ReadFile(path)
+	res := galResStr(string(got), rerr)
+	if werr != nil {
+		res = "Err"
+	}
+	term := fmt.Sprintf("(CPwFile {| pf_kind := %s; pf_backend := %s; pf_want := %s; pf_file := %s |})", gal.Str(kind), gal.Str(backend), gal.Str(want.String()), res)
+	var d any = map[string]any{"first": us1, "second": us2}
+	if kind == "group" {
+		d = map[string]any{"first": gs1, "second": gs2}
+	}
+	w.Add(gal.Case{Term: term, Class: "pwfile/" + kind + "/" + backend + "/" + class, Desc: desc{"pwfile-" + kind + "-" + backend, "", d}})
+}
+
 func pwReadCase(w *gal.Writer, text, class string) {
 	var uf passwd.UserFile
 	var gf passwd.GroupFile
@@ -747,6 +808,25 @@ func run(dir string, seed uint64, tier string) error {
 		pwReadCase(w, t, "corpus")
 	}
 
+	// accounts files rewritten in place: fewer entries, shorter entries, none at all (seeded change C16-4: no O_TRUNC)
+	{
+		root := passwd.UserEntry{UserName: "root", Password: "x", UID: 0, GID: 0, Info: "root", HomeDir: "/root", Shell: "/bin/sh"}
+		app := passwd.UserEntry{UserName: "application-user", Password: "x", UID: 65532, GID: 65532, Info: "Some Body,,,", HomeDir: "/home/application-user", Shell: "/sbin/nologin"}
+		wheel := passwd.GroupEntry{GroupName: "wheel", Password: "x", GID: 10, Members: []string{"root", "application-user", "u"}}
+		wheel1 := passwd.GroupEntry{GroupName: "wheel", Password: "x", GID: 10, Members: []string{"root"}}
+		audio := passwd.GroupEntry{GroupName: "audio", Password: "x", GID: 18}
+		for _, be := range []string{"memfs", "dirfs"} {
+			pwFileCase(w, "passwd", be, []passwd.UserEntry{root, app}, []passwd.UserEntry{root}, nil, nil, "corpus")
+			pwFileCase(w, "passwd", be, []passwd.UserEntry{app}, []passwd.UserEntry{root}, nil, nil, "corpus")
+			pwFileCase(w, "passwd", be, []passwd.UserEntry{root, app}, nil, nil, nil, "corpus")
+			pwFileCase(w, "passwd", be, []passwd.UserEntry{root}, []passwd.UserEntry{root, app}, nil, nil, "corpus")
+			pwFileCase(w, "group", be, nil, nil, []passwd.GroupEntry{wheel, audio}, []passwd.GroupEntry{wheel}, "corpus")
+			pwFileCase(w, "group", be, nil, nil, []passwd.GroupEntry{wheel, audio}, []passwd.GroupEntry{wheel1, audio}, "corpus")
+			pwFileCase(w, "group", be, nil, nil, []passwd.GroupEntry{wheel}, nil, "corpus")
+			pwFileCase(w, "group", be, nil, nil, []passwd.GroupEntry{audio}, []passwd.GroupEntry{wheel, audio}, "corpus")
+		}
+	}
+
 	// ---- generated: every field populated, then mixed ------------------------
 	for i := 0; i < 40*scale; i++ {
 		n := 1 + r.Intn(3)
@@ -811,6 +891,11 @@ func run(dir string, seed uint64, tier string) error {
 		}
 		usersCase(w, us, "generated")
 		groupsCase(w, gs, "generated")
+		if i%4 == 0 { // the same lists as a rewrite history: all entries, then a proper prefix / suffix of them
+			be := []string{"memfs", "dirfs"}[(i/4)%2]
+			pwFileCase(w, "passwd", be, us, us[:len(us)-1], nil, nil, "generated")
+			pwFileCase(w, "group", be, nil, nil, gs, gs[1:], "generated")
+		}
 	}
 	pwSeeds := []string{"root:x:0:0:root:/root:/bin/sh\nnobody:x:65534:65534:nobody:/:/sbin/nologin\n", "wheel:x:10:root,u\nnogroup:x:65533:\n"}
 	for i := 0; i < 60*scale; i++ {
